@@ -799,3 +799,27 @@ impl Default for Context {
         }
     }
 }
+
+/// Verification accessor (cfg(trusttunnel_verif) only): a context for driving a forwarder
+/// alone, without listeners and without TLS host validation
+#[cfg(trusttunnel_verif)]
+impl Context {
+    pub(crate) fn verif_socks_new(
+        settings: Settings,
+        tls_hosts_settings: &settings::TlsHostsSettings,
+    ) -> io::Result<Self> {
+        let settings = Arc::new(settings);
+        let (fatal_error, _fatal_error_rx) = watch::channel(None);
+        Ok(Self {
+            settings: settings.clone(),
+            authenticator: None,
+            tls_demux: Arc::new(RwLock::new(TlsDemux::new(&settings, tls_hosts_settings)?)),
+            icmp_forwarder: None,
+            shutdown: Shutdown::new(),
+            fatal_error,
+            metrics: Metrics::new().map_err(|e| io::Error::new(ErrorKind::Other, e.to_string()))?,
+            next_client_id: Default::default(),
+            next_tunnel_id: Default::default(),
+        })
+    }
+}
